@@ -42,14 +42,16 @@ func tableOf(res runResult) (*Table, bool) {
 }
 
 type rewSpec struct {
-	Fam    string // class prefix = the command whose state is rewound
-	Up     string // the chain in front of the two-pass command
-	Cmp    int
-	Tables string
-	Model  func(cc *coqCtx) string // Coq: the rstages of Up ("" / nil = no model)
-	Known  string                  // known class (the alias stream)
-	TailN  int                     // alias stream: chk_alias with tail <n> and the observed row function
-	NoBy   bool                    // stats without BY: chk_noby with count, sum(v)
+	Fam     string // class prefix = the command whose state is rewound
+	Up      string // the chain in front of the two-pass command
+	Cmp     int
+	Tables  string
+	Model   func(cc *coqCtx) string // Coq: the rstages of Up ("" / nil = no model)
+	Known   string                  // known class (the alias stream)
+	TailN   int                     // alias stream: chk_alias with tail <n> and the observed row function
+	NoBy    bool                    // stats without BY: chk_noby with count, sum(v)
+	Kept    string                  // alias stream: chk_alias_rows with the rows this front returns alone (sort ..)
+	MinRows int                     // model comparison only for tables with at least this many rows
 }
 
 type twoPassCmd struct {
@@ -149,28 +151,50 @@ func rewSpecs() []rewSpec {
 	}
 }
 
-// known defect: tail and sort hand out the SAME IQR again after a Rewind; a command between
-// them and the two-pass command that changes the IQR in place is applied to it twice
+// tail and sort keep their final IQR; a command between them and the two-pass command that changes
+// the IQR in place must not reach the kept result.
+//   - tail: repaired (Process(nil) and GetFinalResultIfExists give away copies); the class stays so that a
+//     regression is reported with its input, the chains are compared with the chain model like all others;
+//   - sort: known defect: sort hands out p.resultsSoFar ITSELF again after a Rewind
 const aliasClass = "cached_result_rewritten_before_two_pass"
+const sortAliasClass = "sort_result_rewritten_before_two_pass"
+
+// stats without a BY clause merged its collected statistics into the result at EVERY extraction
+// (Process(nil), then GetFinalResultIfExists after the Rewind): repaired, the class stays
+const noByClass = "stats_without_by_doubled_before_two_pass"
 
 func aliasSpecs() []rewSpec {
+	tailP := func(n int) string { return rs(fmt.Sprintf("(tail_proc %d)", n), "bottleneck_flags") }
+	incr := func(cc *coqCtx) string {
+		return rs(fmt.Sprintf("(rowwise_proc (fun r => match get r %s with VNum z => [set_field r %s (VNum (z + 1)%%Z)] | _ => [r] end))", cc.field("v"), cc.field("v")), "streaming_flags")
+	}
 	return []rewSpec{
-		{Fam: "alias", Up: "tail 3 | eval v=v+1", Known: aliasClass, TailN: 3, Tables: "num"},
-		{Fam: "alias", Up: "tail 20 | eval v=v+1", Known: aliasClass, TailN: 20, Tables: "num"},
-		{Fam: "alias", Up: "tail 4 | streamstats sum(v) as v", Known: aliasClass, Tables: "num"},
-		{Fam: "alias", Up: "tail 6 | rename v as vv", Known: aliasClass, Tables: "num"},
-		{Fam: "alias", Up: "sort v, id | eval v=v+1", Known: aliasClass, Tables: "num"},
-		{Fam: "alias", Up: "sort v, id | where v>3", Known: aliasClass, Tables: "num"},
-		{Fam: "alias", Up: "sort -v, id | head 3", Known: aliasClass, Tables: "num"},
-		// known defect: stats without a BY clause merges its collected statistics into the result at
-		// EVERY extraction (Process(nil), then GetFinalResultIfExists after the Rewind)
+		{Fam: "alias", Up: "tail 3 | eval v=v+1", Known: aliasClass, TailN: 3, Tables: "num",
+			Model: func(cc *coqCtx) string { return tailP(3) + "; " + incr(cc) }},
+		{Fam: "alias", Up: "tail 20 | eval v=v+1", Known: aliasClass, TailN: 20, Tables: "num",
+			Model: func(cc *coqCtx) string { return tailP(20) + "; " + incr(cc) }},
+		{Fam: "alias", Up: "tail 4 | streamstats sum(v) as v", Known: aliasClass, Tables: "num",
+			Model: func(cc *coqCtx) string {
+				return tailP(4) + "; " + rs(strings.Replace(ssModel("SSum", "v", "v", true, nil, 0, true)(cc), "streamstats_cmd false", "streamstats_proc", 1), "streaming_flags")
+			}},
+		{Fam: "alias", Up: "tail 6 | rename v as vv", Known: aliasClass, Tables: "num",
+			Model: func(cc *coqCtx) string {
+				return tailP(6) + "; " + rs(fmt.Sprintf("(rowwise_proc (fun r => [set_field (drop_field %s r) %s (get r %s)]))", cc.field("v"), cc.field("vv"), cc.field("v")), "streaming_flags")
+			}},
+		{Fam: "alias", Up: "tail 5 | head 2 | eval v=v+1", Known: aliasClass, Tables: "num",
+			Model: func(cc *coqCtx) string {
+				return tailP(5) + "; " + rs("(head_proc 2)", "streaming_flags") + "; " + incr(cc)
+			}},
+		{Fam: "sortalias", Up: "sort v, id | eval v=v+1", Known: sortAliasClass, Kept: "sort v, id", Tables: "num"},
+		{Fam: "sortalias", Up: "sort v, id | where v>3", Known: sortAliasClass, Tables: "num"},
+		{Fam: "sortalias", Up: "sort -v, id | head 3", Known: sortAliasClass, Tables: "num"},
 		{Fam: "statsnoby", Up: "stats count", Cmp: cmpMultiset, Known: noByClass},
-		{Fam: "statsnoby", Up: "stats count, sum(v)", Cmp: cmpMultiset, Known: noByClass, NoBy: true},
+		{Fam: "statsnoby", Up: "stats count, sum(v)", Cmp: cmpMultiset, Known: noByClass, NoBy: true, MinRows: 1,
+			Model: func(cc *coqCtx) string { return rs("(agg_proc "+gstatsModel(nil)(cc)+")", "bottleneck_flags") }},
+		{Fam: "statsnoby", Up: "stats sum(v) as sv, count as c", Cmp: cmpMultiset, Known: noByClass},
 		{Fam: "statsnoby", Up: "head 4 | stats max(v), count", Cmp: cmpMultiset, Known: noByClass},
 	}
 }
-
-const noByClass = "stats_without_by_doubled_before_two_pass"
 
 func twoPassCmds() []twoPassCmd {
 	return []twoPassCmd{
@@ -312,7 +336,7 @@ func runRewoundStream(cfg vhlib.Config, sum *vhlib.Summary, rng *vhlib.Rng, tabl
 					}
 					return true
 				}
-				if s.Known == "" && s.Model != nil && tp.Model != nil && agree {
+				if s.Model != nil && tp.Model != nil && agree && n >= s.MinRows {
 					exp, ok := f.cc.rows(want)
 					if !ok || !defTable() {
 						continue
@@ -333,6 +357,52 @@ func runRewoundStream(cfg vhlib.Config, sum *vhlib.Summary, rng *vhlib.Rng, tabl
 					exp, ok := f.cc.rows(got.Rows)
 					if got.Err == "" && ok && defTable() {
 						f.checks = append(f.checks, fmt.Sprintf("chk_noby %s %s %s %s", gstatsModel(nil)(f.cc), tp.Model(f.cc), tname, exp))
+						f.ncases++
+					}
+				}
+				if s.Kept != "" && tp.Model != nil && !agree && n > 0 {
+					// the rows sort keeps, the row function as observed on them and on its own output
+					got := runChain(spl, t, []int{n}, false)
+					fcmd := strings.TrimSpace(s.Up[strings.Index(s.Up, "|")+1:])
+					kept := runChain(s.Kept, t, []int{n}, false)
+					items := []string{}
+					seen := map[string]bool{}
+					okAll := got.Err == "" && kept.Err == ""
+					level := kept
+					for depth := 0; depth < 2 && okAll; depth++ {
+						lt, ok := tableOf(level)
+						if !ok {
+							okAll = false
+							break
+						}
+						var next runResult
+						for i := range lt.Rows {
+							o := runChain(fcmd, lt.sub(i, i+1), []int{1}, false)
+							if o.Err != "" || len(o.Rows) != 1 {
+								okAll = false
+								break
+							}
+							next.Rows = append(next.Rows, o.Rows...)
+							next.Cols = o.Cols
+							k := lt.crow(i).String()
+							if seen[k] {
+								continue
+							}
+							seen[k] = true
+							a, ok1 := f.cc.row(lt.crow(i))
+							b, ok2 := f.cc.rows(o.Rows)
+							if !ok1 || !ok2 {
+								okAll = false
+								break
+							}
+							items = append(items, fmt.Sprintf("(%s, %s)", a, b))
+						}
+						level = next
+					}
+					keptC, ok0 := f.cc.rows(kept.Rows)
+					exp, ok := f.cc.rows(got.Rows)
+					if okAll && ok && ok0 {
+						f.checks = append(f.checks, fmt.Sprintf("chk_alias_rows %s %s %s %s", keptC, vhlib.CoqListNL(items), tp.Model(f.cc), exp))
 						f.ncases++
 					}
 				}
